@@ -2,14 +2,15 @@
 """Copies sub-agent deliverables (/tmp/mut/out/Cxx/changeN) into /verif/seeded/Cxx-N, with the
 patch rebased onto /repo's current HEAD (3-way), and writes meta.json skeletons."""
 import json, os, re, shutil, subprocess, sys, tempfile
-SRC, DST = "/tmp/mut/out", "/verif/seeded"
+SRC, DST = (sys.argv[1] if len(sys.argv) > 1 else "/tmp/mut/out"), "/verif/seeded"
+OFFSET = int(sys.argv[2]) if len(sys.argv) > 2 else 0     # wave 2: change1 -> -3, change2 -> -4
 head = subprocess.run(["git", "-C", "/repo", "rev-parse", "--short", "HEAD"], capture_output=True, text=True).stdout.strip()
 for prop in sorted(os.listdir(SRC)):
     for ch in ("change1", "change2"):
         d = os.path.join(SRC, prop, ch)
-        if not os.path.exists(os.path.join(d, "patch.diff")):
+        if not all(os.path.exists(os.path.join(d, x)) for x in ("patch.diff", "NOTES.md", "demo/RUN.txt")):
             continue
-        out = os.path.join(DST, "%s-%s" % (prop, ch[-1]))
+        out = os.path.join(DST, "%s-%d" % (prop, int(ch[-1]) + OFFSET))
         os.makedirs(out, exist_ok=True)
         w = tempfile.mkdtemp(prefix="seedimp.", dir="/tmp")
         os.rmdir(w)
@@ -36,11 +37,11 @@ for prop in sorted(os.listdir(SRC)):
         if os.path.exists(os.path.join(out, "demo")):
             shutil.rmtree(os.path.join(out, "demo"))
         shutil.copytree(os.path.join(d, "demo"), os.path.join(out, "demo"))
-        shutil.copy(os.path.join(d, "NOTES.md"), os.path.join(out, "NOTES.md"))
+        if os.path.exists(os.path.join(d, "NOTES.md")):
+            shutil.copy(os.path.join(d, "NOTES.md"), os.path.join(out, "NOTES.md"))
         mp = os.path.join(out, "meta.json")
         meta = json.load(open(mp)) if os.path.exists(mp) else {}
-        notes = open(os.path.join(d, "NOTES.md")).read()
-        meta.update(dict(id="%s-%s" % (prop, ch[-1]), breaks_property=prop, source="independent sub-agent given only the property text and a scratch worktree",
+        meta.update(dict(id="%s-%d" % (prop, int(ch[-1]) + OFFSET), breaks_property=prop, source="independent sub-agent given only the property text and a scratch worktree",
                          patch_state="%s at /repo %s" % (how, head)))
         meta.setdefault("needs_to_manifest", "")
         meta.setdefault("confirmed", {})
